@@ -126,6 +126,11 @@ class Prop(object):
             out += sig(prim, 0x1F, {'key': pbody}, wire.subpacket(27, b'\x03')) + trust
         if 'revoker' in ex:
             out += sig(prim, 0x1F, {'key': pbody}, wire.subpacket(12, b'\x80\x16' + rkeys.fingerprint(other)) + wire.subpacket(7, b'\x00')) + trust
+        if 'direct-third' in ex:
+            out += sig(other, 0x1F, {'key': pbody}, wire.subpacket(5, b'\x01\x3c')) + trust
+        if 'direct-third-local' in ex:
+            # a third party's direct-key signature marked non-exportable: must not leave with the key
+            out += sig(other, 0x1F, {'key': pbody}, wire.subpacket(4, b'\x00')) + trust
         if 'keyrev' in ex:
             out += sig(prim, 0x20, {'key': pbody}, wire.subpacket(29, b'\x03retired')) + trust
         names = ['First User <first@example.org>', 'Second Üser (zwei) <second@example.org>', 'third'][:shape['nuid']]
@@ -143,6 +148,9 @@ class Prop(object):
                 out += sig(other, 0x12, subj, extra) + trust
             if shape.get('revoke_uid') and i == len(ids) - 1:
                 out += sig(prim, 0x30, subj, wire.subpacket(29, b'\x20no longer valid')) + trust
+            if 'uidrev-local' in ex and i == 0:
+                # a third party's local (non-exportable) revocation of its certification
+                out += sig(other, 0x30, subj, wire.subpacket(4, b'\x00') + wire.subpacket(29, b'\x00')) + trust
         for s in subs:
             sbody = rkeys.public_body(s)
             out += rkeys.secret_packet(s, sub=True) if shape['secret'] else rkeys.public_packet(s, sub=True)
@@ -160,7 +168,7 @@ class Prop(object):
     def c_shapes(self, case):
         import pgpy
         r = Res()
-        extras_sets = [(), ('direct',), ('revoker', 'keyrev'), ('direct', 'subrev')]
+        extras_sets = [(), ('direct', 'direct-third-local'), ('revoker', 'keyrev', 'uidrev-local'), ('direct', 'subrev', 'direct-third')]
         combos = list(itertools.product((False, True), (1, 2), (None, 'absent', 'true', 'false'), (False, True), extras_sets, (False, True), (False, True)))
         if case.get('reduced'):
             combos = [c for i, c in enumerate(combos) if (i + c[1]) % 2 == 0]
@@ -282,6 +290,11 @@ class Prop(object):
                 want = sum(1 for x in w.model.uids.get('A', {'third': []})['third'] if x)
                 if len(third) != want:
                     probs.append(('exportable-filter', '%s: %d third-party certifications exported, %d are exportable' % (who, len(third), want)))
+                dthird = [sv for sv in v['direct'] if sv['issuer'] == rkeys.keyid(w.other_raw) and sv['type'] == 0x1F and
+                          not any(sp['type'] == 12 for sp in sv['ps']['hashed_sp'])]
+                dwant = sum(1 for x in w.model.direct_third if x)
+                if len(dthird) != dwant:
+                    probs.append(('exportable-filter', '%s: %d third-party direct-key signatures exported, %d are exportable' % (who, len(dthird), dwant)))
                 r.transitions += roundtrip(blob, known, probs, who, not obj.is_public)
             c = copy.copy(w.key)
             if bytes(c) != bytes(w.key):
